@@ -248,6 +248,9 @@ def cases(draw, side, small):
 def plan(tier):
     n = 2 if tier == "quick" else 8
     shards = []
+    if tier == "thorough":      # coverage-guided campaigns first: they run for a fixed time
+        shards += [{"part": "atheris", "target": "c29-request", "seconds": 240, "i": 900},
+                   {"part": "atheris", "target": "c29-response", "seconds": 240, "i": 901}]
     for side in ("request", "response"):
         for small in (True, False):
             for i in range(n):
@@ -259,8 +262,12 @@ def work(shard, seed, tier):
     from vp.core import env
     env.quiet_ioflo()
     acc = Acc()
+    if shard.get("part") == "atheris":
+        from vp.fuzz.fuzz_http import run_campaign
+        run_campaign(acc, shard["target"], shard["seconds"], seed, max_len=16384)
+        return acc
     if tier == "quick":
-        n = 60 if shard["small"] else 110
+        n = 50 if shard["small"] else 90
     else:
         n = 400 if shard["small"] else 900
     tot = {"splits": 0}
@@ -275,7 +282,7 @@ def work(shard, seed, tier):
         return Outcome(fails, nontrivial=nontrivial, classes=classes, key=key, sample=sample)
 
     campaign(acc, cases(shard["side"], shard["small"]), execute, n, seed * 1000 + shard["i"],
-             budget=Budget(60 if tier == "quick" else 480))
+             budget=Budget(120 if tier == "quick" else 480))
     acc.extra["split_parses"] = tot["splits"]
     return acc
 
